@@ -24,7 +24,7 @@ SCRATCH_TOP = "/dev/shm" if os.path.isdir("/dev/shm") else "/var/tmp"
 
 def main(rest, tier, seed) -> int:
     if not rest:
-        print("usage: check selftest determinism|sensitivity|seeded [...]")
+        print("usage: check selftest determinism|sensitivity|seeded|anchors|fileapi [...]")
         return 2
     cmd, args = rest[0], rest[1:]
     if cmd == "determinism":
@@ -35,6 +35,9 @@ def main(rest, tier, seed) -> int:
         return seeded(args, tier)
     if cmd == "anchors":
         return anchors()
+    if cmd == "fileapi":
+        from . import fileapi_selftest
+        return fileapi_selftest.main()
     print(f"unknown selftest {cmd}")
     return 2
 
@@ -259,7 +262,8 @@ def seeded(sel, tier) -> int:
                         print(out[-1500:], err[-800:])
                     continue
                 caught = rc == 1 and f"VIOLATION property={prop}" in out
-                print(f"seeded {n:40s} {prop} {'CAUGHT' if caught else 'MISSED rc=' + str(rc)} {wall:.0f}s", flush=True)
+                clauses = sorted({ln.split("clause=", 1)[1].split()[0] for ln in out.splitlines() if ln.strip().startswith("clause=")})
+                print(f"seeded {n:40s} {prop} {'CAUGHT' if caught else 'MISSED rc=' + str(rc)} {wall:.0f}s {','.join(clauses)}", flush=True)
                 if not caught:
                     missed += 1
                     print(out[-1200:], err[-800:])
